@@ -129,9 +129,8 @@ impl RefTransport {
 			}
 		}
 		self.pos = target;
-		if self.pos >= self.n {
-			self.playing = false;
-		}
+		// a seek back into the audio takes effect as long as the sound has not stopped
+		self.playing = self.pos < self.n;
 	}
 }
 
